@@ -164,7 +164,17 @@ def gen_pumped(rng, tier):
     gfn = rng.choice(["gen", "gen2"])
     tape = lambda: gen_tape(rng, 8, hi=12, odd=0.6)
     ops.append({"op": "gen_new", "gen": "g0", "fn": gfn, "nargs": 1, "as_global": "GEN"})
-    if rng.random() < 0.5:
+    through = rng.random() < 0.4
+    if through:
+        # the chain runs through the generator itself: the probe is active before the generator
+        # exists, and the generator's first step is made by pump (it is entered under a pump
+        # activation; later ones resume it).  No captures on the pump level: which call of pump a
+        # generator entered under one and resumed under another belongs to is not stated.
+        for op in ops:
+            if op["op"] == "mk" and op["id"] == live[0]:
+                op["sels"] = [sel(["pump", gfn, "g"], "a")]
+        ops.append({"op": "call", "fn": "pump", "nargs": 1, "tape": tape(), "faults": {}})
+    elif rng.random() < 0.5:
         ops.append({"op": "gen_next", "gen": "g0", "tape": tape(), "faults": {}})
     for _ in range(rng.randint(4, 10) if tier == "quick" else rng.randint(6, 20)):
         r = rng.random()
